@@ -283,22 +283,73 @@ func (e *vExecutor) Execute(env map[string]string, cmd string, stdin io.Reader) 
 			m.mu.Unlock()
 		}()
 	}
-	if strings.HasSuffix(cmd, "crunch-run --list") {
-		t0 := time.Now()
-		stdout, stderr, err := e.Executor.Execute(env, cmd, stdin)
-		if err == nil {
-			m := e.m
-			m.mu.Lock()
-			if len(m.probeDur) < 4096 {
-				m.probeDur = append(m.probeDur, vProbeDur{})
-			}
-			m.probeDur[m.probeDurNext%len(m.probeDur)] = vProbeDur{at: time.Now(), dur: time.Since(t0)}
-			m.probeDurNext++
-			m.mu.Unlock()
-		}
-		return stdout, stderr, err
-	}
 	return e.Executor.Execute(env, cmd, stdin)
+}
+
+// vGauge measures, with the same machinery the pool uses (sshexecutor over
+// loopback to a test.SSHService), how long a trivial ssh command round trip
+// takes in this process right now. It is independent of what the dispatcher is
+// doing, so it can tell "the dispatcher is stuck" from "this process is starved".
+type vGauge struct {
+	svc  *test.SSHService
+	exr  *sshexecutor.Executor
+	stop chan struct{}
+}
+
+type vGaugeTarget struct{ svc *test.SSHService }
+
+func (t vGaugeTarget) Address() string                                { return t.svc.Address() }
+func (t vGaugeTarget) RemoteUser() string                             { return "root" }
+func (t vGaugeTarget) VerifyHostKey(ssh.PublicKey, *ssh.Client) error { return nil }
+
+func (rn *vRunner) startGauge() *vGauge {
+	svc := &test.SSHService{
+		HostKey:        rn.keys.hostPriv,
+		AuthorizedUser: "root",
+		AuthorizedKeys: []ssh.PublicKey{rn.keys.dispatchPub},
+		Exec: func(env map[string]string, command string, stdin io.Reader, stdout, stderr io.Writer) uint32 {
+			return 0
+		},
+	}
+	g := &vGauge{svc: svc, stop: make(chan struct{})}
+	key, err := ssh.ParsePrivateKey(rn.keys.dispatchPrivRaw)
+	if err != nil || svc.Start() != nil {
+		return g
+	}
+	g.exr = sshexecutor.New(vGaugeTarget{svc})
+	g.exr.SetSigners(key)
+	m := rn.m
+	go func() {
+		defer m.guard("latency gauge", nil)
+		for {
+			select {
+			case <-g.stop:
+				return
+			default:
+			}
+			t0 := time.Now()
+			_, _, err := g.exr.Execute(nil, "true", nil)
+			if err == nil {
+				m.mu.Lock()
+				if len(m.probeDur) < 4096 {
+					m.probeDur = append(m.probeDur, vProbeDur{})
+				}
+				m.probeDur[m.probeDurNext%len(m.probeDur)] = vProbeDur{at: time.Now(), dur: time.Since(t0)}
+				m.probeDurNext++
+				m.mu.Unlock()
+			}
+			time.Sleep(20 * time.Millisecond)
+		}
+	}()
+	return g
+}
+
+func (g *vGauge) Stop() {
+	close(g.stop)
+	if g.exr != nil {
+		g.exr.Close()
+	}
+	g.svc.Close()
 }
 
 type vProbeDur struct {
@@ -306,8 +357,8 @@ type vProbeDur struct {
 	dur time.Duration
 }
 
-// probeLatency returns the number and the median duration of successful
-// "crunch-run --list" round trips (as the pool saw them) completed since t.
+// probeLatency returns the number and the median duration of the latency
+// gauge's ssh round trips completed since t.
 func (m *vMonitor) probeLatency(since time.Time) (int, time.Duration) {
 	m.mu.Lock()
 	var ds []time.Duration
@@ -565,6 +616,27 @@ func (rn *vRunner) run(lim vLimits) *vResult {
 		return res
 	}
 	defer rn.cleanup()
+	gauge := rn.startGauge()
+	defer gauge.Stop()
+
+	// heartbeat: how much CPU this process actually gets (a 1 ms sleeper ticks
+	// ~900 times per second on a healthy machine). The stuck rule counts
+	// heartbeats, not only seconds, so a starved process cannot be called stuck.
+	var hb int64
+	hbStop := make(chan struct{})
+	defer close(hbStop)
+	go func() {
+		for {
+			select {
+			case <-hbStop:
+				return
+			default:
+			}
+			time.Sleep(time.Millisecond)
+			atomic.AddInt64(&hb, 1)
+		}
+	}()
+	hbAtChange := int64(0)
 
 	pendingEv := append([]vEvent(nil), sc.Events...)
 	pendingRs := append([]vRestart(nil), sc.Restarts...)
@@ -583,6 +655,7 @@ func (rn *vRunner) run(lim vLimits) *vResult {
 		now := time.Now()
 		if o.hash != lastHash {
 			lastHash, lastChange = o.hash, now
+			hbAtChange = atomic.LoadInt64(&hb)
 		}
 		m.mu.Lock()
 		starts := m.startsOK
@@ -617,6 +690,7 @@ func (rn *vRunner) run(lim vLimits) *vResult {
 			if trig(ev.When) {
 				rn.fire(ev)
 				lastFault = time.Now()
+				hbAtChange = atomic.LoadInt64(&hb)
 			} else {
 				keep = append(keep, ev)
 			}
@@ -644,6 +718,7 @@ func (rn *vRunner) run(lim vLimits) *vResult {
 			}
 			lastFault = time.Now()
 			lastChange = lastFault
+			hbAtChange = atomic.LoadInt64(&hb)
 			break
 		}
 
@@ -667,6 +742,7 @@ func (rn *vRunner) run(lim vLimits) *vResult {
 			pendingEv = nil
 			lastFault = time.Now()
 			lastChange = lastFault
+			hbAtChange = atomic.LoadInt64(&hb)
 		}
 
 		if liveness {
@@ -683,7 +759,10 @@ func (rn *vRunner) run(lim vLimits) *vResult {
 			if quiet.After(ref) {
 				ref = quiet
 			}
-			if now.Sub(ref) > lim.stuckAfter {
+			// ... and the process must have had the CPU for that long: at
+			// least 600 heartbeats per second of the window (nominal ~900)
+			hbNeeded := int64(lim.stuckAfter/time.Second) * 600
+			if now.Sub(ref) > lim.stuckAfter && atomic.LoadInt64(&hb)-hbAtChange >= hbNeeded {
 				// The pool discards the result of every probe that overlaps
 				// a sync (updateWorker stamps wkr.updated; probeAndUpdate
 				// then "waits for the next probe"), so its design assumes
@@ -695,8 +774,8 @@ func (rn *vRunner) run(lim vLimits) *vResult {
 				nprobe, med := m.probeLatency(now.Add(-lim.stuckAfter))
 				if now.Sub(lastEntriesAt) > 5*time.Second {
 					infra("VERIF-INFRA: state unchanged for %s but the scheduler has not read the queue for %s (scheduler goroutine not alive?)", now.Sub(ref), now.Sub(lastEntriesAt))
-				} else if o.nvm > 0 && (nprobe < 20 || med > syncIv/2) {
-					infra("VERIF-INFRA: state unchanged for %s, but this process is too slow for the configured intervals: %d successful --list probes in that time, median round trip %s, SyncInterval %s (probe results overlapping a sync are discarded by design) - inconclusive",
+				} else if nprobe < int(lim.stuckAfter/time.Second)*10 || med > syncIv/2 {
+					infra("VERIF-INFRA: state unchanged for %s, but this process is too slow for the configured intervals: the latency gauge completed %d ssh round trips in that time (nominal ~45/s), median %s, SyncInterval %s (the pool discards probe results that overlap a sync) - inconclusive",
 						now.Sub(ref).Round(time.Millisecond), nprobe, med, syncIv)
 				} else {
 					m.mu.Lock()
